@@ -60,7 +60,7 @@ class VC:
         self.prop = prop
         self.tier = tier
         self.seed = seed
-        self.timeout_ms = 60000 if tier == 'quick' else 180000
+        self.timeout_ms = int(os.environ.get('VERIF_SOLVER_MS', 0)) or (60000 if tier == 'quick' else 180000)
         self.results = []
         self.covers = {}
         self.paths = 0
